@@ -83,7 +83,14 @@ pub struct Step {
 pub type History = Vec<Step>;
 
 pub fn to_ubox(b: &BoxF) -> Universal2DBox {
-    Universal2DBox::new_with_confidence(b.xc, b.yc, b.angle, b.aspect, b.height, b.conf)
+    // both documented ways of giving a box its confidence (picked by a bit of the coordinate)
+    if b.xc.to_bits() & 1 == 1 {
+        let mut u = Universal2DBox::new(b.xc, b.yc, b.angle, b.aspect, b.height);
+        u.set_confidence(b.conf);
+        u
+    } else {
+        Universal2DBox::new_with_confidence(b.xc, b.yc, b.angle, b.aspect, b.height, b.conf)
+    }
 }
 
 pub fn from_ubox(b: &Universal2DBox) -> BoxF {
